@@ -188,6 +188,10 @@ func (r *runner) sendRequest(inCh chan *nats.Msg, g string) (ok bool) {
 	defer func() {
 		if recover() != nil { // send on closed channel: service closed the in-channel
 			ok = false
+			// the message was never delivered: forget its submission record (single sender: it is the last one)
+			r.lsub.mu.Lock()
+			r.lsub.q = r.lsub.q[:len(r.lsub.q)-1]
+			r.lsub.mu.Unlock()
 		}
 	}()
 	c := r.newCb(g)
@@ -366,13 +370,16 @@ func (r *runner) run() bool {
 		case "d1": // producer passes the started-check, then close() sets the queue to nil, then the producer enqueues
 			blocked := make(chan struct{})
 			release := make(chan struct{})
-			var once sync.Once
+			var once int32
 			var target uint64
 			r.gateFn.Store(func(pt string) {
 				switch pt {
 				case "runwith-checked":
 					if goid() == atomic.LoadUint64(&target) {
-						once.Do(func() { close(blocked); <-release })
+						if atomic.CompareAndSwapInt32(&once, 0, 1) {
+							close(blocked)
+							<-release
+						}
 					}
 				case "close-after-nil":
 					select {
@@ -398,11 +405,14 @@ func (r *runner) run() bool {
 		case "d2": // publisher passes the started-check, Shutdown runs to completion, then the publisher uses the connection
 			blocked := make(chan struct{})
 			release := make(chan struct{})
-			var once sync.Once
+			var once int32
 			var target uint64
 			r.gateFn.Store(func(pt string) {
 				if pt == "publish-checked" && goid() == atomic.LoadUint64(&target) {
-					once.Do(func() { close(blocked); <-release })
+					if atomic.CompareAndSwapInt32(&once, 0, 1) {
+						close(blocked)
+						<-release
+					}
 				}
 			})
 			r.safeGo(&wg, "TokenEvent", func() {
@@ -425,10 +435,13 @@ func (r *runner) run() bool {
 			g := sc.Groups[0]
 			atRelock := make(chan struct{})
 			release := make(chan struct{})
-			var once sync.Once
+			var once int32
 			r.gateFn.Store(func(pt string) {
 				if pt == "worker-before-relock" {
-					once.Do(func() { close(atRelock); <-release })
+					if atomic.CompareAndSwapInt32(&once, 0, 1) {
+						close(atRelock)
+						<-release
+					}
 				}
 			})
 			r.submit(g)
@@ -445,10 +458,13 @@ func (r *runner) run() bool {
 			r.settle(time.Second) // all workers reach Wait
 			parked := make(chan struct{})
 			release := make(chan struct{})
-			var once sync.Once
+			var once int32
 			r.gateFn.Store(func(pt string) {
 				if pt == "runwith-before-signal" {
-					once.Do(func() { close(parked); <-release })
+					if atomic.CompareAndSwapInt32(&once, 0, 1) {
+						close(parked)
+						<-release
+					}
 				}
 			})
 			r.safeGo(&wg, "WithGroup", func() { r.submit(sc.Groups[0]) })
@@ -466,10 +482,13 @@ func (r *runner) run() bool {
 		case "d5": // Shutdown is parked between setting the queue to nil and Broadcast while producers keep submitting
 			parked := make(chan struct{})
 			release := make(chan struct{})
-			var once sync.Once
+			var once int32
 			r.gateFn.Store(func(pt string) {
 				if pt == "close-after-nil" {
-					once.Do(func() { close(parked); <-release })
+					if atomic.CompareAndSwapInt32(&once, 0, 1) {
+						close(parked)
+						<-release
+					}
 				}
 			})
 			for k := 0; k < 4; k++ {
@@ -522,6 +541,7 @@ type conv struct {
 	wq       []int
 	nextW    int
 	pub      map[uint64]int
+	cleared  bool
 	shutSt   int // 0 idle, 1 waited (LWgDone emitted, LClearConn not yet)
 	hasClose bool
 	lsubIdx  int
@@ -610,6 +630,7 @@ func (c *conv) convert(log []entry) error {
 			c.retired = map[uint64]bool{}
 			c.running = map[uint64]int{}
 			c.wq = nil
+			c.cleared = false
 			c.svc = "starting"
 		case "serve-started":
 			c.emit("servestarted", "LServeStarted")
@@ -706,6 +727,7 @@ func (c *conv) convert(log []entry) error {
 			if c.shutSt == 1 {
 				c.emit("clear", "LClearConn")
 			}
+			c.cleared = true
 			c.shutSt = 0
 			c.emit("stopped", "LStopped")
 			c.svc = "stopped"
@@ -719,13 +741,20 @@ func (c *conv) convert(log []entry) error {
 			}
 		case "conn-publish":
 			if p, ok := c.pub[e.gid]; ok {
-				c.emit("pubuse", fmt.Sprintf("LPubUse %d%%N true", p))
+				t := fmt.Sprintf("LPubUse %d%%N true", p)
+				// Publish is logged when it is called; the connection was read (under s.mu) before that,
+				// hence before Shutdown cleared it, if it has been cleared by now.
+				if c.cleared && c.insertBeforeLast("clear", "pubuse", t) {
+				} else {
+					c.emit("pubuse", t)
+				}
 				delete(c.pub, e.gid)
 			}
 		case "publish-refused":
 			if p, ok := c.pub[e.gid]; ok {
 				if c.shutSt == 1 {
 					c.emit("clear", "LClearConn")
+					c.cleared = true
 					c.shutSt = 2
 				}
 				c.emit("pubuse", fmt.Sprintf("LPubUse %d%%N false", p))
@@ -778,7 +807,7 @@ func main() {
 	var cases []Case
 	var impl []ImplViolation
 	dist := map[string]int{}
-	n := 60
+	n := 150
 	if o.Tier == "thorough" {
 		n = 1500
 	}
